@@ -33,7 +33,7 @@ OUTSIDE = ("real AES-CBC/CMAC/SHA/ECDSA (stubbed); that the ECC points are on th
            "file plumbing (load_from_config); DevHSM containers")
 STUBS = ["cryptography symmetric API -> ideal cipher model", "cmac / get_hash -> uninterpreted functions with argument "
          "capture", "PublicKeyEcc -> StubEcc (symbolic coordinates; parse inverse of export), SignatureProvider -> UF SIGN"]
-MUST_REACH = ["cmd\\..*", "rom\\..*"]
+MUST_REACH = ["cmd\\..*", "rom\\..*", "cfg\\..*"]
 OPTS = {"quick": {"case_timeout_s": 400}, "thorough": {"case_timeout_s": 2400}}
 
 KINDS = ["erase", "load1", "load16", "load17", "execute", "call", "prog_fuses", "prog_ifr", "load_cmac", "copy",
@@ -61,6 +61,8 @@ def setup(symbolic):
     if symbolic:
         cls = keystubs.classes()
         CB.convert_to_ecc_key = lambda key: key if isinstance(key, cls["StubEcc"]) else cls["StubEcc"].recreate_from_data(key)
+        from symx import hexnum
+        hexnum.install_value_to_int()
         K = SymK()
     else:
         K = RealK()
@@ -278,6 +280,50 @@ def h_rom(env, c):
                         ncalls if env.symbolic else 0, roots, isk)
 
 
+def h_cfg(env, c):
+    """The configuration path (nxpimage sb31 export): the part key is given as hexadecimal text of 32 or 64 digits; the
+    container built from the configuration must pass the same ROM-loader model with exactly that key."""
+    curve = c["curve"]
+    hb = {"secp256r1": 256, "secp384r1": 384}[curve]
+    h = hb // 8
+    key_bits = 128 if hb == 256 else 256
+    cb, sp, roots, isk, root_sp, user, cons = _keys(env, c)
+    nbytes = 32 if c["pck"] == 256 else 16
+    pck = env.bytes("pck", nbytes)
+    zero_top = c.get("zero_top", False)
+    if zero_top:
+        env.assume(env.And(*[pck[i] == 0 for i in range(16)]))
+        env.assume(env.Or(*[pck[i] != 0 for i in range(16, 32)]))
+    else:
+        # (a 64-digit text whose upper half is all zero is read as a 128-bit key - recorded finding, see the twin case)
+        env.assume(env.Or(*[pck[i] != 0 for i in range(16 if nbytes == 32 else nbytes)]))
+    ts = env.int("timestamp", 1, (1 << 64) - 1)
+    fw = env.int("fw_version", 0, 0xFFFFFFFF)
+    flags = env.int("flags", 0, 0xFFFFFFFF)
+    rights = env.int("rights", 0, 3)
+    cmd, spx = make_cmd(env, "erase", 0)
+    if env.symbolic:
+        from symx.hexnum import HexNum
+        text = HexNum(env.from_bytes(pck, "big"), digits=2 * nbytes)
+    else:
+        text = bytes(pck).hex()
+    IMG.CertBlockV21.from_config = staticmethod(lambda config, search_paths=None: cb)
+    IMG.get_signature_provider = lambda *a, **k: sp
+    cfg = {"family": "lpc55s3x", "containerKeyBlobEncryptionKey": text, "kdkAccessRights": rights,
+           "containerConfigurationWord": flags, "firmwareVersion": fw, "timestamp": ts, "description": "verif",
+           "isEncrypted": True,
+           "commands": [{"erase": {"address": cmd.address, "size": cmd.length, "memoryId": cmd.memory_id}}]}
+    sb = IMG.SecureBinary31.load_from_config(cfg)
+    env.prove(len(sb.pck) == nbytes if sb.pck is not None else False,
+              "cfg.part_key_has_the_length_of_the_text" + ("_zero_upper_half" if zero_top else ""))
+    if zero_top:
+        return
+    ncalls = len(sp.calls) if env.symbolic else 0
+    data = list(sb.export())
+    specs = [(sb.sb_commands.commands[0], spx)]
+    check_container(env, c, data, "cfg", specs, cb, sp, pck, ts, fw, flags, rights, h, hb, key_bits, ncalls, roots, isk)
+
+
 def check_container(env, c, b, L, specs, cb, sp, pck, ts, fw, flags, rights, h, hb, key_bits, ncalls, roots, isk):
     n = len(b)
     # ---- header (documented layout "<4s2H3LQ4L16s") ---------------------------------------------------
@@ -415,6 +461,10 @@ def cases(tier):
     cs.append(dict(base, id="rom/p384_2roots_used1", cmds=["call"], curve="secp384r1", roots=2, used=1))
     cs.append(dict(base, id="rom/plain", cmds=["load17", "call"], enc=False))
     cs.append(dict(base, id="rom/pck128", cmds=["erase"], pck=128))
+    cs.append(dict(base, id="cfg/pck256_text", h="cfg", cmds=["erase"], pck=256))
+    cs.append(dict(base, id="cfg/pck128_text", h="cfg", cmds=["erase"], pck=128))
+    cs.append(dict(base, id="cfg/pck256_text_zero_upper_half", h="cfg", cmds=["erase"], pck=256, zero_top=True))
+    cs.append(dict(base, id="cfg/pck128_text_p384", h="cfg", cmds=["erase"], pck=128, curve="secp384r1"))
     cs.append(dict(base, id="rom/two_exports", cmds=["load16", "call"], exports=2))
     cs.append(dict(base, id="rom/two_exports_isk_p384", cmds=["erase"], exports=2, curve="secp384r1", isk=True, udata=0))
     cs.append(dict(base, id="rom/two_exports_2blocks", cmds=["call"] * 15, exports=2))
